@@ -230,9 +230,10 @@ impl NtpSourceSnapshot {
         // hardware as its source, so ignore reference_id if stratum is 1.
 
         if self.stratum != 1
-            && local_ips
-                .iter()
-                .any(|ip| ReferenceId::from_ip(*ip) == self.source_id)
+            && local_ips.iter().any(|ip| {
+                let local_id = ReferenceId::from_ip(*ip);
+                local_id == self.source_id || local_id == self.reference_id
+            })
         {
             debug!("Source rejected because of detected synchronization loop (ref id)");
             return Err(AcceptSynchronizationError::Loop);
